@@ -375,8 +375,14 @@ fn replay(args: &[String]) -> i32 {
         let mut world = match guarded(|| World::new(&new)) {
             Ok(w) => w,
             Err(msg) => {
+                // nothing could be observed: the reset event carries the initial state so that the panic is what gets reported
+                for (k, v) in [("wakes", json!(0)), ("fut", json!("pending")), ("futkind", json!("")), ("guard", json!("ok")),
+                               ("ready", json!(false)), ("idle", json!("unknown")), ("ridle", json!(false)),
+                               ("hasrem", json!(!new[5].as_array().unwrap().is_empty()))] {
+                    reset[k] = v;
+                }
                 out.emit(&reset);
-                out.emit(&json!({"ev": "panic", "op": ["new"], "msg": msg}));
+                out.emit(&json!({"ev": "panic", "op": ["new", new], "msg": msg}));
                 continue;
             }
         };
